@@ -36,6 +36,17 @@ RULE = ("tables of 1-6 particles x 3-10 frames on the 1/8 grid (random walks wit
         "positions from 2 before the first to 2 after the last frame incl. single-frame, clamped, "
         "full-cover and disjoint ranges; thorough tier adds the exhaustive family of all 343 valid "
         "old partitions of 2 particles x 4 frames x 3 namings x all ranges x 3 motion patterns.  "
+        "Stream `opts` = such a table with every option of link_partial's signature and every layout "
+        "of the table drawn independently: t_column default / passed / another name, with or without an "
+        "unrelated column carrying the other name; pos_columns guessed / explicit in either order / "
+        "tuple / custom names with or without unrelated x,y columns / 1-D / 3-D / passive z; "
+        "search_range float / int / numpy / tuple / list / per-axis; link_range tuple / list / numpy; "
+        "linker kwargs (memory=0, link_strategy, neighbor_strategy, adaptive_*, predictor=None); old "
+        "labels renamed injectively to start above 0, straddle 2**31, 2**53 (consecutive, odd), carry a "
+        "2**60 prefix, sit at the top of int64 or beyond (uint64), or mix small and huge ones, held in "
+        "int64 / uint64 / object / Int64 / (below 2**53) float64 columns; frame numbers shifted to "
+        "negative or beyond 2**31 and held in (u)int8..64; extra columns named like trackpy's internal "
+        "ones; str / float / negative / duplicated / Multi index, named or not.  "
         "Non-trivial = the reconnect branch ran, an old track crosses the first or last frame of the "
         "range, and the partition inside the range differs from the old one; distinct = distinct "
         "canonical input.")
@@ -47,6 +58,17 @@ ASSUMPTIONS = [
     "positions are multiples of 1/8 and never decide a branch of reconnect_traj_patch: no float "
     "tolerance is involved in this check",
     "memory=0 inside the patch (the docstring excludes memory for reconnect_traj_patch)",
+    "labels are exact Python ints everywhere in the harness (read column by column with tolist(); a "
+    "float-typed label is accepted only when integral) and arbitrary-size Int in the driver protocol",
+    "rows are identified by a passive unique column, so that duplicated index values can be generated; "
+    "the index VALUES of every row must be preserved, the index NAME is not judged (pandas_sort renames "
+    "an index called like the t_column)",
+    "J2 comes from tp.link on a table rebuilt from the case with canonical column names and a default "
+    "index, with the same per-axis search range and linker kwargs; with link_strategy='drop' no "
+    "tie-breaking alternative is accepted",
+    "inputs on which the unchanged tree fails are not generated and listed above gen_opts (open-ended "
+    "link_range, float t_column, narrow-int particle column, user column `_old_particle`, index named "
+    "`particle`, negative old labels, memory > 0)",
     "interpretive choice: when a Joined-class contains two rows of one frame, completeness is only "
     "required for the generating pairs J2, J3 and J1 restricted to rows on the same side of the range",
 ]
@@ -461,7 +483,7 @@ def gen_opts(rng, thorough=False):
                    "predictor_none": {"predictor": None}}[kk]
     inp["stream"] = "opts"
     inp["opts"] = o
-    inp["meta"] = dict(inp["meta"], naming=inp["meta"]["naming"] + "+" + scheme)
+    inp["meta"] = dict(inp["meta"], label_scheme=scheme)
     return inp
 
 
@@ -894,6 +916,8 @@ def run_case(ctx, inp):
     res.stat("cases")
     res.stat("old_" + str(meta.get("old_mode", "corpus")))
     res.stat("naming_" + str(meta.get("naming", "corpus")))
+    if meta.get("label_scheme"):
+        res.stat("label_scheme_" + meta["label_scheme"])
     res.stat("rows_%s" % ("1-4" if len(rows) <= 4 else "5-12" if len(rows) <= 12 else "13-30" if len(rows) <= 30 else "31+"))
     if inp.get("family"):
         res.stat("exhaustive_family")
